@@ -1,97 +1,140 @@
 import Acra.Model.Ch11Video
-import Acra.Lemmas.Ch11Pay
+import Acra.Lemmas.Ch11Video
+import Acra.Lemmas.MpegCanon
+import Acra.Lemmas.ReviewC06
+import Acra.Props.C06.MPEGTS
 import Acra.Spec.Ch11
 namespace Acra.Props.C04
-open Acra.Py Acra.Model.Ch11Pay Acra.Model.Ch11Pay.Video Acra.Gen.Ch11Video Acra.Lemmas.Ch11Pay
+open Acra.Py Acra.Model.Ch11Pay.Video Acra.Model.MPEGTS Acra.Gen.Ch11Video Acra.Lemmas.MPEGTS Acra.Lemmas.Ch11Video
 
-/-- a whole transport-stream packet without adaptation field: 188 bytes, sync byte 0x47,
-    adaptation-field control 01 (payload only) -/
-def TsClean (c : Bytes) : Prop := c.length = 188 ∧ byteAt c 0 = 0x47 ∧ ctrl c = 1
+/-! Video format 2 (C04), transport-stream packets WITH OR WITHOUT adaptation fields (rev1 B5: the model used to
+    answer `NotImplementedError` for every TS packet carrying an adaptation field, and the theorems spoke of
+    payload-only packets).  The nested `MPEGTS` object is now the MPEG family's model, so the statements range over
+    every adaptation-control mode and every combination of adaptation parts the C06 theorems cover.
 
-/-- video format 2 without intra-packet headers (bit 19 clear), carrying whole clean TS packets -/
+    `TsWhole p` (Lemmas/Ch11Video.lean): every field of the packet fits its width, sync 0x47, the parts fit 188 bytes,
+    control 2 has its adaptation-field object.  A payload-only 188-byte packet — the former `TsClean` — is the case
+    `adaption_ctrl = 1`, 184 payload bytes. -/
+
+/-- video format 2 without intra-packet headers (bit 19 clear), carrying whole transport-stream packets -/
 def Video_WF (s : State) : Prop :=
-  s.channel_specific_word < 2 ^ 32 ∧ (s.channel_specific_word / 2 ^ IPH_OFFSET) % 2 = 0 ∧ ∀ c ∈ s.blocks, TsClean c
+  s.channel_specific_word < 2 ^ 32 ∧ (s.channel_specific_word / 2 ^ IPH_OFFSET) % 2 = 0 ∧
+  ∀ p ∈ s.mpegts.blocks, TsWhole p
 
-theorem chunkPack_clean (c : Bytes) (h : TsClean c) : chunkPack c = .ok c := by
-  obtain ⟨h1, _, h3⟩ := h
-  simp [chunkPack, chunkPayload, h3, h1]
+instance (p : Pkt) : Decidable (TsWhole p) := by unfold TsWhole; infer_instance
+instance (s : State) : Decidable (Video_WF s) := by unfold Video_WF; infer_instance
 
-theorem chunkOk_clean (c : Bytes) (h : TsClean c) : chunkOk c = true := by
-  obtain ⟨h1, h2, h3⟩ := h
-  simp [chunkOk, h1, h2, h3]
-
-/-- `pack()`: the channel-specific word, then the transport-stream packets in order -/
+/-- `pack()`: the channel-specific word, then the transport-stream packets in order, each exactly 188 bytes
+    (`Pkt_bytes p` is the ISO 13818-1 packet of C06: `TS_header_layout`, `TS_af_length`, `AF_pack_layout`) -/
 theorem Video_pack_layout (s : State) (h : Video_WF s) :
-    pack s = .ok (Spec.Ch11.video2 s.channel_specific_word s.blocks) := by
+    (pack s).2 = .ok (Spec.Ch11.video2 s.channel_specific_word (s.mpegts.blocks.map Pkt_bytes)) ∧
+    ∀ c ∈ s.mpegts.blocks.map Pkt_bytes, c.length = 188 := by
   obtain ⟨h1, _, h3⟩ := h
-  have hf : Fits VID_pack_fmt0.codes [s.channel_specific_word] := by
-    simp [Fits, VID_pack_fmt0, Code.bound]; omega
-  simp only [pack, structPack_eq _ _ hf, packList_eq chunkPack id s.blocks (fun c hc => chunkPack_clean c (h3 c hc))]
-  simp [VID_pack_fmt0, encCodes, Code.size, Spec.Ch11.video2, encInt, List.flatMap_def]
+  refine ⟨?_, ?_⟩
+  · rw [Video_pack_eq s h1 (fun p hp => (h3 p hp).1)]
+    simp [Video_bytes, Spec.Ch11.video2, encInt, List.flatMap_def]
+  · intro c hc
+    obtain ⟨p, hp, rfl⟩ := List.mem_map.mp hc
+    have := (h3 p hp).2.2.1
+    rw [Pkt_bytes_length]; omega
 
-theorem splitTS_clean (cs : List Bytes) (pre : Bytes) (fuel : Nat) (hf : cs.length < fuel) (h : ∀ c ∈ cs, TsClean c) :
-    splitTS (pre ++ cs.flatten) fuel pre.length = .ok cs := by
-  induction cs generalizing pre fuel with
-  | nil =>
-    cases fuel with
-    | zero => omega
-    | succ fuel => simp [splitTS]
-  | cons c cs ih =>
-    cases fuel with
-    | zero => omega
-    | succ fuel =>
-      have hc := h c (by simp)
-      have hlt : pre.length < (pre ++ (c :: cs).flatten).length := by simp [hc.1]; omega
-      have hsl : slice (pre ++ (c :: cs).flatten) pre.length (pre.length + 188) = c := by
-        simp only [List.flatten_cons]
-        exact slice_mid _ _ _ _ _ rfl (by rw [hc.1])
-      unfold splitTS
-      simp only [hlt, if_true, hsl, chunkOk_clean c hc]
-      have := ih (pre ++ c) fuel (by simp at hf; omega) (fun x hx => h x (by simp [hx]))
-      simp only [List.length_append, hc.1, List.append_assoc] at this
-      simp only [List.flatten_cons]
-      rw [this]
-
-/-- round trip: N transport-stream packets in, the same N packets out in the same order; the data
-    stream bit is read from the channel-specific word; the prior contents of the decoder do not matter -/
+/-- round trip, into an object in ANY prior state: N transport-stream packets in, N packets out in the same order,
+    each the decoded form of the one that went in (C06 `TS_roundtrip`: all header fields, the adaptation field as
+    `pack` normalised it, the payload followed by the 0xFF stuffing — the format has no payload length); the data
+    stream bit is read from the channel-specific word -/
 theorem Video_roundtrip (s t : State) (h : Video_WF s) :
-    ∃ b, pack s = .ok b ∧
+    ∃ b, (pack s).2 = .ok b ∧ b.length = 4 + 188 * s.mpegts.blocks.length ∧
       unpack t b = ({ channel_specific_word := s.channel_specific_word,
-                      datastream := (s.channel_specific_word / 2 ^ TP_OFFSET) % 2, blocks := s.blocks }, .ok ()) := by
-  refine ⟨_, Video_pack_layout s h, ?_⟩
+                      datastream := (s.channel_specific_word / 2 ^ TP_OFFSET) % 2,
+                      mpegts := { blocks := s.mpegts.blocks.map Pkt_decoded } }, .ok ()) ∧
+      (s.mpegts.blocks.map Pkt_decoded).length = s.mpegts.blocks.length := by
   obtain ⟨h1, h2, h3⟩ := h
-  have e : Spec.Ch11.video2 s.channel_specific_word s.blocks = encInt false 4 s.channel_specific_word ++ s.blocks.flatten := by
-    simp [Spec.Ch11.video2, encInt]
-  rw [e]
-  have hcsw : structUnpackFrom VID_unpack_fmt0 (encInt false 4 s.channel_specific_word ++ s.blocks.flatten) 0 =
-      .ok [s.channel_specific_word] := by
-    simp only [structUnpackFrom, VID_unpack_fmt0, Fmt.size, codesSize, Code.size, List.length_append,
-      encInt_length, unpackCodes, List.drop_zero, take_encInt_append]
-    rw [decInt_encInt4 _ _ (by omega)]
-    simp
-  have hge : s.blocks.length ≤ s.blocks.flatten.length := by
-    have : ∀ (cs : List Bytes), (∀ c ∈ cs, TsClean c) → cs.length ≤ cs.flatten.length := by
-      intro cs
-      induction cs with
-      | nil => intro _; simp
-      | cons c cs ih =>
-        intro hc
-        have := (hc c (by simp)).1
-        have := ih (fun x hx => hc x (by simp [hx]))
-        simp only [List.length_cons, List.flatten_cons, List.length_append]; omega
-    exact this _ h3
-  have hsp := splitTS_clean s.blocks [] (s.blocks.flatten.length + 1) (by omega) h3
-  simp only [List.nil_append, List.length_nil] at hsp
-  have hiph : ¬ (s.channel_specific_word / 2 ^ IPH_OFFSET % 2 = 1) := by omega
-  simp only [unpack, hcsw, hiph, if_false, drop_encInt_append, hsp]
+  refine ⟨Video_bytes s, by rw [Video_pack_eq s h1 (fun p hp => (h3 p hp).1)], ?_,
+    Video_unpack_bytes s t h1 h2 h3, by simp⟩
+  simp only [Video_bytes, List.length_append, encInt_length,
+    flatMap_bytes_length _ (fun p hp => (h3 p hp).2.2.1)]
 
-example : TsClean ([0x47, 0x01, 0x00, 0x10] ++ List.replicate 184 0xAB) := ⟨by simp only [List.length_append, List.length_replicate, List.length_cons, List.length_nil], by rfl, by rfl⟩
+/-- re-encoding the decoded object never fails, gives the same number of bytes, and reproduces the bytes when the
+    format can express every packet (no payload with adaptation control 0 or 2) -/
+theorem Video_reencode (s : State) (h : Video_WF s) :
+    (∃ b', (pack (Video_decoded s)).2 = .ok b' ∧ b'.length = 4 + 188 * s.mpegts.blocks.length) ∧
+    ((∀ p ∈ s.mpegts.blocks, (p.adaption_ctrl = 0 ∨ p.adaption_ctrl = 2) → p.payload = []) →
+      (pack (Video_decoded s)).2 = (pack s).2) := by
+  obtain ⟨h1, h2, h3⟩ := h
+  have hwd : ∀ q ∈ (Video_decoded s).mpegts.blocks, Pkt_WF q := by
+    intro q hq
+    obtain ⟨p, hp, rfl⟩ := List.mem_map.mp hq
+    exact (Pkt_decoded_bytes p (h3 p hp).1 (h3 p hp).2.2.1).1
+  have hused : ∀ q ∈ (Video_decoded s).mpegts.blocks, Pkt_used q ≤ 188 := by
+    intro q hq
+    obtain ⟨p, hp, rfl⟩ := List.mem_map.mp hq
+    obtain ⟨hwp, _, hf, _⟩ := h3 p hp
+    have haf := Pkt_af_decoded p hwp
+    unfold Pkt_used at hf ⊢
+    rw [haf]
+    by_cases hc : p.adaption_ctrl = 1 ∨ p.adaption_ctrl = 3
+    · have : (Pkt_decoded p).payload = p.payload ++ Pkt_stuffing p := by simp [Pkt_decoded, hc]
+      rw [this]; simp [Pkt_stuffing, Pkt_used]; omega
+    · have : (Pkt_decoded p).payload = [] := by simp [Pkt_decoded, hc]
+      rw [this]; simp; omega
+  have hcd : (Video_decoded s).channel_specific_word < 2 ^ 32 := h1
+  rw [Video_pack_eq _ hcd hwd, Video_pack_eq s h1 (fun p hp => (h3 p hp).1)]
+  refine ⟨⟨_, rfl, ?_⟩, ?_⟩
+  · have hl : (Video_decoded s).mpegts.blocks.length = s.mpegts.blocks.length := by simp [Video_decoded]
+    simp only [Video_bytes, List.length_append, encInt_length, flatMap_bytes_length _ hused, hl]
+  · intro hpl
+    have := flatMap_decoded_bytes s.mpegts.blocks (fun p hp => ⟨(h3 p hp).1, (h3 p hp).2.2.1, hpl p hp⟩)
+    simp only [Video_bytes]
+    show Except.ok (encInt false 4 s.channel_specific_word ++ (s.mpegts.blocks.map Pkt_decoded).flatMap Pkt_bytes) = _
+    rw [this]
 
-example : Video_WF ⟨0x1000, 1, [[0x47, 0x01, 0x00, 0x10] ++ List.replicate 184 0xAB]⟩ := by
-  refine ⟨by decide, by decide, ?_⟩
-  intro c hc
-  have : c = [0x47, 0x01, 0x00, 0x10] ++ List.replicate 184 0xAB := by simpa using hc
-  subst this
-  exact ⟨by simp only [List.length_append, List.length_replicate, List.length_cons, List.length_nil], by rfl, by rfl⟩
+/-- **the same packets back**: when every packet is one the class encodes exactly (`Pkt_canon`: a packet that carries
+    a payload fills its 188 bytes; controls 0 and 2 carry none; no stray adaptation-field object), the decoded blocks
+    ARE the blocks as `pack` left them — field for field, adaptation fields included -/
+theorem Video_roundtrip_exact (s t : State) (h : Video_WF s)
+    (hc : ∀ p ∈ s.mpegts.blocks, Acra.Lemmas.MpegCanon.Pkt_canon p) :
+    ∃ b, (pack s).2 = .ok b ∧
+      unpack t b = ({ (pack s).1 with datastream := (s.channel_specific_word / 2 ^ TP_OFFSET) % 2 }, .ok ()) := by
+  obtain ⟨b, hp, _, hu, _⟩ := Video_roundtrip s t h
+  refine ⟨b, hp, ?_⟩
+  rw [hu, Video_pack_eq s h.1 (fun p hp => (h.2.2 p hp).1)]
+  have hm : s.mpegts.blocks.map Pkt_packed = s.mpegts.blocks.map Pkt_decoded :=
+    List.map_congr_left (fun p hp => Acra.Lemmas.MpegCanon.Pkt_canon_packed_eq_decoded p (hc p hp))
+  simp [Video_packed, hm]
+
+/-- witness: a stream of three whole packets — adaptation field only (PCR, with stuffing after it), adaptation field
+    (splice countdown, stuffed length) followed by 100 payload bytes, payload only — data-stream bit set; all three are
+    also canonical -/
+def videoExample : State :=
+  { channel_specific_word := 0x1000, datastream := 1,
+    mpegts := { blocks :=
+      [ { Pkt.fresh with pid := 0x1FFF, adaption_ctrl := 2,
+                         adaption_field := some { AF.fresh with pcr := [1, 2, 3, 4, 5, 6] } },
+        { Pkt.fresh with pid := 5, adaption_ctrl := 3, payload := List.replicate 100 7,
+                         adaption_field := some { AF.fresh with length := 83, splice_countdown := 3 } },
+        { Pkt.fresh with pid := 0x100, adaption_ctrl := 1, continuitycounter := 15,
+                         payload := List.replicate 184 0xAB } ] } }
+
+example : Video_WF videoExample ∧ (∀ p ∈ videoExample.mpegts.blocks, Acra.Lemmas.MpegCanon.Pkt_canon p) ∧
+    (∀ p ∈ videoExample.mpegts.blocks, (p.adaption_ctrl = 0 ∨ p.adaption_ctrl = 2) → p.payload = []) := by
+  decide +kernel
+
+/-- the model evaluated on the witness: 4 + 3·188 bytes, three blocks back, the second with its adaptation field
+    (length 83, splicing flag set by `pack`, countdown 3); the first keeps its 7-byte adaptation field, the 0xFF stuffing after it is outside the field -/
+example :
+    ((pack videoExample).2.toOption.map List.length) = some 568 ∧
+    ((pack videoExample).2.toOption.map fun b => ((unpack fresh b).1.mpegts.blocks.map fun p => p.adaption_ctrl)) = some [2, 3, 1] ∧
+    ((pack videoExample).2.toOption.map fun b =>
+      ((unpack fresh b).1.mpegts.blocks.map fun p => p.adaption_field.map fun a => (a.length, a.splicing_flag, a.splice_countdown))) =
+      some [some (7, false, 0), some (83, true, 3), none] := by
+  decide +kernel
+
+/-- a packet with an adaptation field that is NOT exactly filled still round-trips in the sense of `Video_roundtrip`
+    (the stuffing comes back as payload) but not in the sense of `Video_roundtrip_exact` -/
+example :
+    let s : State := { videoExample with mpegts := { blocks :=
+      [ { Pkt.fresh with adaption_ctrl := 3, payload := [1, 2, 3], adaption_field := some { AF.fresh with pcr := [1, 2, 3, 4, 5, 6] } } ] } }
+    Video_WF s ∧ ¬ (∀ p ∈ s.mpegts.blocks, Acra.Lemmas.MpegCanon.Pkt_canon p) := by
+  decide +kernel
 
 end Acra.Props.C04
